@@ -480,6 +480,9 @@ func c08(c *Ctx) {
 	c.Rule("R8", "E4 role agreement", "exponential collect methods: positive/negative bucket roles agree in delta and cumulative (= C07.R7)", 2)
 	ruleSignRoles(c, ax, "R8")
 
+	c.Rule("R10", "E3 must-pass (shared with C07.R8)", "exponential buckets: a window grown inside spare capacity is zeroed before use (a cumulative point that was down-scaled and grows again must not report counts none of its deltas contained)", 2)
+	ruleExpoWindowZeroed(c, ax, "R10")
+
 	c.Rule("R9", "E8 fieldcover on every path (shared)", "delta and cumulative collect methods rewrite every field of the recycled output points in every iteration (= C07.R10): a delta and a cumulative reader of one instrument report the same optional fields (Sum, Min, Max)", 4)
 	ruleRecycledPoints(c, ax, "R9")
 
